@@ -38,8 +38,10 @@ def serve(worlds_path, cases_path, sc, obs="full", triple=False, stats=True, tag
     return trace
 
 
-def judge(prop, cfg, trace, verdict, signature, heap="8g"):
-    """Validate with Trace_Static/<cfg>; route rejected events of `prop` to the verdict. Returns (tv, events_or_None)."""
+def judge(prop, cfg, trace, verdict, signature, heap="8g", conformance=None):
+    """Validate with Trace_Static/<cfg>; route rejected events of `prop` to the verdict. Returns (tv, events_or_None).
+    conformance: optional list; rejections by clauses "R.*" (Router: behaviour pinned beyond the listed properties) are
+    appended to it -- they are reported as notes, never as a VIOLATION of a property."""
     tv = vlib.validate_trace("Trace_Static", trace, cfg=cfg, heap=heap)
     tool = [f for f in tv.fails if any(p.startswith("TOOL.") for p in f["props"])]
     if tool:
@@ -48,6 +50,11 @@ def judge(prop, cfg, trace, verdict, signature, heap="8g"):
         events = load_events(trace, [f["i"] for f in tv.fails])
         for f in tv.fails:
             mine = sorted(p for p in f["props"] if p.startswith(prop + "."))
+            beyond = sorted(p for p in f["props"] if p.startswith("R."))
+            if beyond and conformance is not None:
+                e0 = events[f["i"]]
+                conformance.append({"clauses": beyond, "target": e0.get("target"), "method": e0["q"].get("method"), "world": e0["q"].get("w"),
+                                    "surface": e0.get("surface", "in-process"), "status": e0["r"].get("status"), "builtin": e0["r"].get("builtin")})
             if not mine:
                 continue
             e = events[f["i"]]
